@@ -59,25 +59,22 @@ static zidx_t							\
 find_before_##N(						\
 	const X v[], size_t nv, X key, zidx_t i, zidx_t min, zidx_t max) \
 {								\
-/* Given key K find the index of the transition before */	\
-	do {							\
-		X lo, up;					\
-								\
-		lo = v[i];					\
-		up = v[i + 1];					\
-								\
-		if (key > lo && key <= up) {			\
-			/* found him */				\
-			break;					\
-		} else if (key > up) {				\
-			min = i + 1;				\
-			i = (i + max) / 2;			\
-		} else if (key <= lo) {				\
-			max = i - 1;				\
-			i = (i + min) / 2;			\
+/* Given key K find the index I of the transition before,		\
+ * i.e. V[I] < KEY <= V[I + 1], by bisecting for the smallest I		\
+ * with KEY <= V[I + 1] */						\
+	(void)i;						\
+	if (max + 1U >= nv) {					\
+		max = nv > 1U ? nv - 2U : 0U;			\
+	}							\
+	while (min < max) {					\
+		i = min + (max - min) / 2U;			\
+		if (key > v[i + 1U]) {				\
+			min = i + 1U;				\
+		} else {					\
+			max = i;				\
 		}						\
-	} while (max > min && i < nv);				\
-	return i;						\
+	}							\
+	return min;						\
 }								\
 static const int UNUSED(defined_find_before_##name##_p)
 
